@@ -26,9 +26,15 @@ open RtcModel.Spsc RtcModel.C20Word RtcModel.Generated
 structure Variant where
   plock : Bool
   rfix : Bool
+  /-- `false`: the track pair of track.rs; `true`: the `SampleQueueSender`/`SampleQueueReceiver`
+  pair of pipeline.rs (same producer paths; no sender counting — the one sender is shared by
+  reference; its own receiver loop `stepR`, receiver drop also sets `closed`) -/
+  pipe : Bool
 deriving DecidableEq, Repr
 
-def Variant.cur : Variant := ⟨true, true⟩
+def Variant.cur : Variant := ⟨true, true, false⟩
+/-- the pipeline.rs queue pair, current code -/
+def Variant.pipeCur : Variant := ⟨true, true, true⟩
 
 /-- which `push` inside which function: first/second attempt of `try_send_drop_oldest`, or `try_send` -/
 inductive Ctx | first | second | try_
@@ -89,6 +95,25 @@ deriving DecidableEq, Repr
 inductive SPc | idle | stStore | stNotify      -- `stop()`: y50, y51
 deriving DecidableEq, Repr
 
+/-- operations of the pipeline.rs receiver -/
+inductive ROp | recv | dropRecv
+deriving DecidableEq, Repr
+
+/-- program counter of `SampleQueueReceiver::recv` / `Drop for SampleQueueReceiver` (pipeline.rs) -/
+inductive RPc
+  | idle
+  | dead                                   -- receiver dropped
+  | lock                                   -- y41 `pop_lock.lock()`
+  | ldClosed                               -- y42 `closed.load()` before pop
+  | pop (cl : Bool) (p : PopPc)            -- y5..y8
+  | mkNtf                                  -- y47 `notify.notified()`
+  | emptyClosed (g : Nat)                  -- y9 `queue.is_empty() && !closed.load()` (one step, see NOTES)
+  | await1 (g : Nat)                       -- y44 first poll
+  | await2                                 -- registered, pending
+  | stClosed                               -- y34 `closed.store(true)` (receiver drop)
+  | ntfW                                   -- y35 `notify_waiters()`
+deriving DecidableEq, Repr
+
 structure Notify where
   permit : Bool
   gen : Nat           -- number of `notify_waiters` calls
@@ -117,6 +142,7 @@ structure St where
   pp : Nat → PPc
   cp : CPc
   sp : SPc
+  rp : RPc
   -- ghost
   live : List Nat                 -- producers holding a handle (`fetch_sub` not yet executed)
   attempts : List Val             -- samples whose processing started (at lock acquisition), in order
@@ -130,7 +156,7 @@ structure St where
 def St.init (v : Variant) (cap W start : Nat) : St :=
   { v, ring := Ring.init cap W start, plock := none, poplock := none, closed := false, ended := false,
     senders := trackInitSenders, ntf := ⟨false, 0, false, false⟩,
-    pp := fun i => if i = 0 then .idle else .none, cp := .idle, sp := .idle,
+    pp := fun i => if i = 0 then .idle else .none, cp := .idle, sp := .idle, rp := .idle,
     live := [0], attempts := [], rejected := [], droppedOld := [], recvd := [], pres := [], cres := [],
     stopCalled := false }
 
@@ -138,6 +164,7 @@ inductive Label
   | prod (i : Nat) (op : Option POp)
   | cons (start : Bool)
   | stop (start : Bool)
+  | rcv (op : Option ROp)
 deriving DecidableEq, Repr
 
 /-! ### producer steps -/
@@ -163,7 +190,14 @@ def startP (s : St) (i : Nat) : POp → St
   | .trySend v => s.beginSample i .try_ v []
   | .cloneTo j =>
     if j ≠ i ∧ s.pp j = .none then { s with pp := upd (upd s.pp j .reserved) i (.clone j) } else s
-  | .dropSrc => s.setP i .fetchSub
+  | .dropSrc =>
+    if s.v.pipe then
+      -- pipeline.rs: the sender is shared by reference (`Arc`); releasing a reference is not a
+      -- yield point, the last release runs `Drop for SampleQueueSender`
+      let s' := { s with senders := s.senders - trackDropDec, live := s.live.erase i }
+      if s.senders = trackCloseWhenPrev then s'.setP i .stClosed
+      else { s'.setP i .gone with pres := s.pres ++ [(i, .dropped)] }
+    else s.setP i .fetchSub
 
 def stepP (s : St) (i : Nat) (op : Option POp) : St :=
   match s.pp i with
@@ -258,10 +292,40 @@ def stepS (s : St) (start : Bool) : St :=
   | .stStore => { s with ended := true, stopCalled := true, sp := .stNotify }
   | .stNotify => { s with ntf := s.ntf.waiters, sp := .idle }
 
+/-! ### pipeline.rs receiver (only in the `pipe` variant) -/
+
+def stepR (s : St) (op : Option ROp) : St :=
+  if s.v.pipe = false then s else
+  match s.rp with
+  | .idle => match op with
+    | some .recv => { s with rp := .lock }
+    | some .dropRecv => { s with rp := .stClosed }
+    | none => s
+  | .dead => s
+  | .lock => if s.poplock = none then { s with poplock := some .cons, rp := .ldClosed } else s
+  | .ldClosed => { s with rp := .pop s.closed .ldHead }
+  | .pop cl p =>
+    match popStep s.ring p with
+    | (r, .cont p') => { s with ring := r, rp := .pop cl p' }
+    | (r, .done x) => { s with ring := r, poplock := none, recvd := s.recvd ++ [x], rp := .idle, cres := s.cres ++ [.ok x] }
+    | (r, .empty) =>
+      if cl then { s with ring := r, poplock := none, rp := .idle, cres := s.cres ++ [.eos] }
+      else { s with ring := r, poplock := none, rp := .mkNtf }
+  | .mkNtf => { s with rp := .emptyClosed s.ntf.gen }
+  | .emptyClosed g => if s.ring.isEmpty && !s.closed then { s with rp := .await1 g } else { s with rp := .lock }
+  | .await1 g =>
+    if s.ntf.gen ≠ g then { s with rp := .lock }
+    else if s.ntf.permit then { s with ntf := { s.ntf with permit := false }, rp := .lock }
+    else { s with ntf := { s.ntf with reg := true }, rp := .await2 }
+  | .await2 => if s.ntf.woken then { s with ntf := { s.ntf with woken := false }, rp := .lock } else s
+  | .stClosed => { s with closed := true, rp := .ntfW }
+  | .ntfW => { s with ntf := s.ntf.waiters, rp := .dead }
+
 def step (s : St) : Label → St
   | .prod i op => stepP s i op
   | .cons start => stepC s start
   | .stop start => stepS s start
+  | .rcv op => stepR s op
 
 def run (s : St) (ls : List Label) : St := ls.foldl step s
 
@@ -270,7 +334,7 @@ def run (s : St) (ls : List Label) : St := ls.foldl step s
 def pushPoint : PushPc → Nat
   | .ldTail => 1 | .ldHead _ => 2 | .write _ => 3 | .stTail _ => 4
 def popPoint : PopPc → Nat
-  | .ldHead => 5 | .ldTail _ => 6 | .read _ => 7 | .stHead _ _ => 8
+  | .ldHead => 5 | .ldTail _ => 6 | .retNone => 10 | .read _ => 7 | .stHead _ _ => 8
 
 def PPc.point : PPc → Nat
   | .acq .. => 20 | .chk .. => 21 | .push _ _ _ p => pushPoint p | .ntf .. => 23 | .tryLock .. => 22
@@ -285,6 +349,10 @@ def CPc.point : CPc → Nat
 def SPc.point : SPc → Nat
   | .stStore => 50 | .stNotify => 51 | .idle => 0
 
+def RPc.point : RPc → Nat
+  | .lock => 41 | .ldClosed => 42 | .pop _ p => popPoint p | .mkNtf => 47 | .emptyClosed _ => 9
+  | .await1 _ => 44 | .stClosed => 34 | .ntfW => 35 | _ => 0
+
 /-- would granting this thread a step be a no-op because it waits for a lock / a wake-up? -/
 def blocked (s : St) : Label → Bool
   | .prod i _ => match s.pp i with
@@ -295,5 +363,9 @@ def blocked (s : St) : Label → Bool
     | .await2 => !s.ntf.woken
     | _ => false
   | .stop _ => false
+  | .rcv _ => match s.rp with
+    | .lock => s.poplock.isSome
+    | .await2 => !s.ntf.woken
+    | _ => false
 
 end RtcModel.SpscTrack
